@@ -56,7 +56,22 @@ type Executor interface {
 // RunCase runs the case in lockstep. The model is consulted until the first disagreement;
 // the implementation keeps running to the end so that the property's own oracle can still
 // turn a disagreement into a concrete failing input.
-func RunCase(c Case, d *Driver, mk func(Cfg) Executor, st *CaseStats) Outcome {
+// Runner fixes, for a family, how cases are executed and which part of an observation
+// belongs to the property's alphabet (Norm drops the rest before the comparison).
+type Runner struct {
+	Mk   func(Cfg) Executor
+	Norm func(line, obs string) string
+}
+
+func (rn Runner) norm(line, obs string) string {
+	if rn.Norm == nil {
+		return obs
+	}
+	return rn.Norm(line, obs)
+}
+
+func RunCase(c Case, d *Driver, rn Runner, st *CaseStats) Outcome {
+	mk := rn.Mk
 	var out Outcome
 	ex := mk(c.Cfg)
 	if r := d.Ask(c.Cfg.Line()); r != "ok" {
@@ -87,8 +102,12 @@ func RunCase(c Case, d *Driver, mk func(Cfg) Executor, st *CaseStats) Outcome {
 			if viol != "" {
 				return Outcome{Kind: "oracle", Index: i, Line: line, Impl: impl, Viol: viol}
 			}
-			model := d.Ask(line)
-			if model != impl {
+			ml := line
+			if x, ok := ex.(interface{ ModelLine(string) string }); ok {
+				ml = x.ModelLine(line)
+			}
+			model := d.Ask(ml)
+			if rn.norm(line, model) != rn.norm(line, impl) {
 				out = Outcome{Kind: "disagree", Index: i, Line: line, Impl: impl, Model: model}
 			}
 		} else if viol != "" {
@@ -101,7 +120,7 @@ func RunCase(c Case, d *Driver, mk func(Cfg) Executor, st *CaseStats) Outcome {
 }
 
 // Shrink minimises the op list while the outcome kind stays the same (delta debugging).
-func Shrink(c Case, d *Driver, mk func(Cfg) Executor, kind string, budget int) Case {
+func Shrink(c Case, d *Driver, mk Runner, kind string, budget int) Case {
 	same := func(ops []string) bool {
 		if budget <= 0 {
 			return false
@@ -181,6 +200,7 @@ type Report struct {
 }
 
 type FamCtx struct {
+	Gen    func() Case // generator of the family, used by the failing-input search
 	Rand   *rand.Rand
 	Seed   int64
 	Tier   string
@@ -203,7 +223,7 @@ func (f *FamCtx) N(quick, thorough int) int {
 }
 
 // RunTreeCase runs one case with the standard tree session and book-keeping.
-func (f *FamCtx) RunTreeCase(c Case, mk func(Cfg) Executor, nontrivial func(CaseStats) bool) {
+func (f *FamCtx) RunTreeCase(c Case, mk Runner, nontrivial func(CaseStats) bool) {
 	var st CaseStats
 	o := RunCase(c, f.Driver, mk, &st)
 	f.Report.Cases++
@@ -231,7 +251,7 @@ func (f *FamCtx) RunTreeCase(c Case, mk func(Cfg) Executor, nontrivial func(Case
 	}
 }
 
-func (f *FamCtx) AddFinding(c Case, o Outcome, mk func(Cfg) Executor) {
+func (f *FamCtx) AddFinding(c Case, o Outcome, mk Runner) {
 	if len(f.Report.Findings) >= 5 {
 		return
 	}
@@ -242,6 +262,16 @@ func (f *FamCtx) AddFinding(c Case, o Outcome, mk func(Cfg) Executor) {
 	}
 	fi := Finding{Family: f.Report.Family, Property: f.Report.Property, Case: c, Shrunk: sh, Outcome: so}
 	fi.FailingInput = so.Kind == "oracle" || so.LaterViol != ""
+	if !fi.FailingInput && f.Gen != nil {
+		// the correspondence broke without contradicting the property on this history:
+		// search the implementation alone (property oracle only) for a failing input
+		if fc, fo, ok := f.SearchOracle(mk, 3000); ok {
+			fi.Note = "correspondence broke at the shrunk case; failing input found by oracle-only search"
+			fi.Shrunk, fi.Outcome, fi.FailingInput = fc, fo, true
+		} else {
+			fi.Note = "oracle-only search over further generated histories found no input on which the implementation contradicts the property"
+		}
+	}
 	f.Report.Findings = append(f.Report.Findings, fi)
 }
 
@@ -282,4 +312,45 @@ func sortedKeys(m map[string]int) []string {
 	}
 	sort.Strings(ks)
 	return ks
+}
+
+// RunImplOnly runs a case on the implementation with the property oracle only.
+func RunImplOnly(c Case, rn Runner) Outcome {
+	ex := rn.Mk(c.Cfg)
+	for i, line := range c.Ops {
+		impl, viol := ex.Exec(line)
+		if viol != "" {
+			return Outcome{Kind: "oracle", Index: i, Line: line, Impl: impl, Viol: viol}
+		}
+	}
+	return Outcome{}
+}
+
+func (f *FamCtx) SearchOracle(rn Runner, n int) (Case, Outcome, bool) {
+	for i := 0; i < n; i++ {
+		c := f.Gen()
+		if o := RunImplOnly(c, rn); o.Kind == "oracle" {
+			// shrink with the oracle as predicate
+			ops := c.Ops[:o.Index+1]
+			budget := 300
+			for chunk := len(ops) / 2; chunk >= 1 && budget > 0; {
+				reduced := false
+				for start := 0; start+chunk <= len(ops)-1 && budget > 0; start += chunk {
+					cand := append(append([]string{}, ops[:start]...), ops[start+chunk:]...)
+					budget--
+					if RunImplOnly(Case{c.Cfg, cand}, rn).Kind == "oracle" {
+						ops = cand
+						reduced = true
+						break
+					}
+				}
+				if !reduced {
+					chunk /= 2
+				}
+			}
+			sc := Case{c.Cfg, ops}
+			return sc, RunImplOnly(sc, rn), true
+		}
+	}
+	return Case{}, Outcome{}, false
 }
